@@ -31,7 +31,7 @@ RULE = ('generated article/book documents: sectioning commands of six levels in 
         'x nine bad-chars settings x base-url x toc settings; malformed stream: templates without a fail-safe alternative, bad-chars that '
         'make labels collide, split levels 7..99, documents printed backwards; labels that equal static names of the template / names issued '
         'earlier (name-clash), twin sections.  Every case is rendered twice in separate pristine processes and the files compared byte for byte '
-        '(tag rendered-twice=identical counts them).  Non-trivial = at least two output files and ten words.')
+        '(the second time after another document was processed in the same interpreter; generated identifiers renamed; tag rendered-twice=identical counts them).  Non-trivial = at least two output files and ten words.')
 TRUSTED = ['modelled, not verified (hypothesis tmpl_linear of the theorems; checked by this correspondence for the shipped templates): '
            'Jinja2 / simpleTAL evaluate a node template so that the rendering of its children appears once, in order; the layout '
            'templates emit the content followed by the footnotes of the file',
@@ -174,8 +174,9 @@ def oracle(case, rec):
         return ('C13:duplicate-filename', 'file name issued twice: %s' % dup)
     bad = set(eff['bad'])
     if not (bad & set('0123456789')):
-        # the literal text of the template is the user's own choice (white space in it only separates names)
-        literal = set(ch for ch in eff['filename'] if not ch.isspace()) | set(eff['ext']) | set(eff['badsub'])
+        # the literal text of the template is the user's own choice; its syntax ($var, ${var}, (n), brackets, commas, blanks) is not text
+        lit = re.sub(r'\$\{?\w+\}?(\(\s*\d+\s*\))?', '', eff['filename'])
+        literal = set(ch for ch in lit if not ch.isspace() and ch not in '[],') | set(eff['ext']) | set(eff['badsub'])
         for fn in names:
             stem = fn[:-len(eff['ext'])] if eff['ext'] and fn.endswith(eff['ext']) else fn
             b = (set(stem) & bad) - literal
@@ -245,7 +246,7 @@ def oracle(case, rec):
     # (f) the same on every run
     sec = rec.get('second') or {}
     if sec.get('status') != 'ok' or sec.get('files') != rec.get('digests'):
-        return ('C13:not-deterministic', 'a second render of the same input wrote different files: %s vs %s' % (
+        return ('C13:not-deterministic', 'a second render of the same input, in an interpreter that had processed another document before, wrote different files: %s vs %s' % (
             sorted((sec.get('files') or {}).items())[:6], sorted((rec.get('digests') or {}).items())[:6]))
     return deferred
 
